@@ -857,17 +857,13 @@ def _loc_MatchMapping_rest(self: fst.FST, stars: bool = False) -> fstloc | None:
     else:
         col += is_delimited
 
+    ln, col = next_find(lines, ln, col, end_ln, end_col, '**')  # must be there
+    rest_ln, rest_col, src = next_find_re(lines, ln, col + 2, end_ln, end_col, re_identifier)  # must be there, found as identifier because may not be written normalized
+
     if not stars:
-        ln, col = next_find(lines, ln, col, end_ln, end_col, rest)
+        return fstloc(rest_ln, rest_col, rest_ln, rest_col + len(src))
 
-        return fstloc(ln, col, ln, col + len(rest))
-
-    ln, col = next_find(lines, ln, col, end_ln, end_col, '**')
-    end_ln, end_col, src = next_frag(lines, ln, col + 2, end_ln, end_col)  # must be there
-
-    assert src.startswith(rest)
-
-    return fstloc(ln, col, end_ln, end_col + len(rest))
+    return fstloc(ln, col, rest_ln, rest_col + len(src))
 
 
 def _loc_MatchClass_pars(self: fst.FST) -> fstloc:
